@@ -21,6 +21,8 @@ try:
     r1 = srcfacts.check(lib.REPO, srcfacts.ALL_TIES, os.path.join(w, 'a'))
     r2 = srctie2.check(lib.REPO, srctie2.ALL, os.path.join(w, 'b'))
     r3 = srctie2.linked_check(lib.REPO, os.path.join(w, 'c'))
+    r4 = srctie2.linked_vec_check(lib.REPO, os.path.join(w, 'd'))
+    print('SETUP: regenerated reader / hide / reveal:', r4.get('status'))
     print('SETUP: source ties', sum(v == 'tied' for v in r1.values()), '/', len(r1), ';', sum(v.startswith('tied') for v in r2.values()), '/', len(r2), ';', r3.get('status'))
 except Exception as e:
     print('SETUP: source ties not warmed:', repr(e)[:200])
